@@ -41,6 +41,7 @@ class SimRadio:
         self.last_byte = 0
         self.violations: List[str] = []
         self.busy_until = 0
+        self.view = None  # (STATUS, FIFO_STATUS, OBSERVE_TX) as they were when the running transmit chain began
         self.altered = set()  # registers whose value changed at some write (reset by the harness)
 
     # ----- derived ---------------------------------------------------------------------------
@@ -230,6 +231,16 @@ class SimRadio:
             self.rx_fifo.clear()
         return bytes([st]) + z
 
+    def xfer_view(self, out: bytes, view) -> bytes:
+        """a read-only transaction (NOP / R_REGISTER) answered while a transmit cycle is still in progress
+        (SimWorld.polling): STATUS, FIFO_STATUS and OBSERVE_TX still show the state before the cycle"""
+        cmd, n = out[0], len(out) - 1
+        st, fifo, obs = view
+        if cmd < 0x20:
+            src = {0x07: bytes([st]), 0x17: bytes([fifo]), 0x08: bytes([obs])}.get(cmd) or self.read_reg(cmd)
+            return bytes([st]) + self._clock_out(src, n)
+        return bytes([st]) + bytes(n)
+
     # ----- reception -------------------------------------------------------------------------
     def listens_to(self, k) -> Optional[int]:
         if not (self.rx_mode() and self.rf_ch == k["ch"] and self.rate() == k["rate"]
@@ -283,6 +294,24 @@ class SimWorld:
         self.air: list = []
         self.spi_count = 0
         self.call_budget = MAX_SPI_PER_CALL
+        self.poll_depth = 0
+
+    def polling(self):
+        """context manager for BLOCKING driver calls (send / resend): while it is active, status polls issued while a
+        transmit cycle is in progress see the radio as it was before the cycle and advance the clock only part of
+        the way (half of what remains), instead of jumping to the cycle's end at the first poll.  A driver that polls
+        until the radio reports the outcome sees the same final state at the same final time as with the jump (so the
+        model, which jumps, still corresponds); a driver that gives up on a deadline of its own does not (seeded change
+        C02-s22).  Outside blocking calls the jump semantics of DESIGN section 0.2 are unchanged."""
+        w = self
+
+        class _P:
+            def __enter__(self):
+                w.poll_depth += 1
+
+            def __exit__(self, *a):
+                w.poll_depth -= 1
+        return _P()
 
     # ----- time ------------------------------------------------------------------------------
     def sleep(self, seconds: float):
@@ -362,6 +391,8 @@ class SimWorld:
             self.air.append((r.idx, k, made, False))
 
     def _try_transmit(self, r: SimRadio):
+        if self.clock >= r.busy_until:
+            r.view = (r.status(), r.fifo_status(), (min(r.plos_cnt, 15) << 4) | (r.arc_cnt & 0x0F))
         for _ in range(4):
             if not (r.tx_mode() and not (r.flags & 0x10) and r.tx_fifo):
                 return
@@ -372,6 +403,16 @@ class SimWorld:
     # ----- pins and bus ----------------------------------------------------------------------
     def spi(self, idx: int, out: bytes) -> bytes:
         r = self.radios[idx]
+        if (self.poll_depth > 0 and r.view is not None and out and (out[0] == 0xFF or out[0] < 0x20)
+                and r.busy_until - self.clock > 4 * SPI_COST_NS):
+            self.clock += (r.busy_until - self.clock) // 2 - SPI_COST_NS
+            inb = r.xfer_view(bytes(out), r.view)
+            self.clock += SPI_COST_NS
+            self.spi_count += 1
+            self.call_budget -= 1
+            if self.call_budget < 0:
+                raise SimTimeout("SPI transaction budget of one public call exhausted")
+            return inb
         self.clock = max(self.clock, r.busy_until)
         inb = r.xfer(bytes(out))
         self.clock += SPI_COST_NS
